@@ -1,7 +1,8 @@
 """Reach expectations: which probes / fault kinds every run of a check is expected to hit.
 
 `reach_expect.json` (committed, never written at run time) lists, per property, the probe and fault-kind
-names that both reference quick runs (VERIF_SEED 0 and 1) hit at least MIN_HITS times.  Every run reports
+names that both reference quick runs (VERIF_SEED 0 and 1) hit at least MIN_HITS times (hits come in bunches of up to ~50 per case, so a low bar would list
+probes that a single case carries).  Every run reports
 in its evidence which of them it did not hit: a name stuck at zero after a workload change means the
 workload no longer reaches that condition.  A gap is reported, never turned into a VIOLATION: it is a
 statement about the harness, not about d42.
@@ -11,7 +12,7 @@ import os
 
 HERE = os.path.dirname(os.path.dirname(os.path.abspath(__file__)))
 PATH = os.path.join(HERE, "reach_expect.json")
-MIN_HITS = 20
+MIN_HITS = 200
 
 
 def flatten(cov):
